@@ -46,6 +46,7 @@ ASSUMPTIONS = ["comparison tolerance 1e-9 * (1 + product of the infinity-norms o
 
 SIMPLE = ["a", "b", "c", "d"]
 MULTI = ["x1", "gen", "s0", "tt"]
+EXTRA = ["ab", "ba", "cc"]        # multi-character names living next to single-character ones
 FAMILIES = ["unimodular", "unimodular", "unimodular_int", "gaussian", "float", "sl2z"]
 
 
@@ -150,7 +151,7 @@ def sym2_char(tr1, tr2):
 
 class Handle:
     __slots__ = ("id", "real", "gens", "order", "n", "kind", "simple", "dtype", "parent", "how",
-                 "relations", "family", "abs_err")
+                 "relations", "family", "abs_err", "extra")
 
     def __init__(self, hid, real, simple, kind="plain", parent=None, how="new", family=None):
         self.id = hid
@@ -166,12 +167,13 @@ class Handle:
         self.relations = []
         self.family = family or hid
         self.abs_err = 0.0      # bound on the absolute error its generators inherited from derivations
+        self.extra = {}         # multi-character generators of a single-character representation
 
     def has_complex(self):
-        return any(np.any(np.abs(M.imag) > 0) for M in self.gens.values())
+        return any(np.any(np.abs(M.imag) > 0) for M in list(self.gens.values()) + list(self.extra.values()))
 
     def maxnorm(self):
-        return max([1.0] + [ninf(M) for M in self.gens.values()])
+        return max([1.0] + [ninf(M) for M in list(self.gens.values()) + list(self.extra.values())])
 
     def tol(self, letters, bound, kappa):
         return (1e-8 * (1 + kappa) * (2 + len(letters)) + (1 + len(letters)) * self.abs_err) * bound
@@ -180,6 +182,8 @@ class Handle:
         k = 1.0
         for g, M in self.gens.items():
             k = max(k, ninf(M) * ninf(self.gens[inv_name(g)]))
+        for g, M in self.extra.items():
+            k = max(k, ninf(M) * ninf(self.extra[inv_name(g)]))
         return k
 
     def value(self, letters):
@@ -239,6 +243,7 @@ class Engine:
             "callers": rng.randint(2, 4),
             "maxdim": 30,
             "mixed_dtypes": rng.random() < 0.3,
+            "mixed_names": rng.random() < 0.25,
             "scribble": rng.random() < 0.3,
         }
         w = {"new": 5, "assign": 30, "derive": 25, "observe": 25, "relations": 4, "reject": 2, "drop": 4}
@@ -265,7 +270,8 @@ class Engine:
     def state_hash(self, world):
         parts = []
         for h in world.handles.values():
-            parts.append((h.id, h.kind, h.how, h.parent, h.n, h.dtype, sorted(h.gens), list(h.relations)))
+            parts.append((h.id, h.kind, h.how, h.parent, h.n, h.dtype, sorted(h.gens), sorted(h.extra),
+                          list(h.relations)))
         return h64(canon(parts))
 
     # ------------------------------------------------------------------ generation
@@ -336,6 +342,9 @@ class Engine:
         if cfg["family"] == "sl2z" and not h.gens and rng.random() < 0.7:
             return {"op": "assign_sl2z", "h": h.id}
         g = rng.choice(names)
+        if cfg.get("mixed_names") and not cfg["multi"] and h.simple and h.kind == "plain" \
+                and h.how in ("new", "copy", "conjugate", "dual", "astype") and h.gens and rng.random() < 0.25:
+            g = rng.choice(EXTRA)      # e.g. a generator named "ab" next to "a" and "b"
         n = h.n if h.n is not None else cfg["n"]
         fam = cfg["family"]
         if cfg.get("mixed_dtypes") and rng.random() < 0.5:
@@ -365,8 +374,10 @@ class Engine:
         else:
             kinds = ["copy", "conjugate", "dual", "compose", "subgroup", "astype", "gln_adjoint", "sln_adjoint",
                      "wrap_projective", "wrap_hyperbolic"]
-            if h.simple:
+            if h.simple and not h.extra:
                 kinds += ["tensor", "symmetric_square", "tensor", "symmetric_square"]
+            if h.extra:
+                kinds = [x for x in kinds if x not in ("wrap_projective", "wrap_hyperbolic")]
         how = rng.choice(kinds)
         op = {"op": "derive", "new": self._new_id(world), "h": h.id, "how": how}
         n = h.n
@@ -533,6 +544,8 @@ class Engine:
             return "skipped:dim"
         if h.how == "symmetric_square":
             return "skipped:sym"
+        if len(g) > 1 and h.simple and (h.kind != "plain" or not h.gens):
+            return "skipped:extra-name"
         name = inv_name(g) if op.get("via_inverse") else g
         arr = self._wrap(h.kind, to_dtype(M, op["dtype"]))
         try:
@@ -548,6 +561,12 @@ class Engine:
         if h.n is None:
             h.n = M.shape[0]
         h.dtype = op["dtype"]
+        if len(g) > 1 and h.simple:
+            Mm = to_dtype(M, op["dtype"]).astype(np.complex128)
+            h.extra[name] = Mm
+            h.extra[inv_name(name)] = np.linalg.inv(Mm)
+            world.stats["probe.multichar_generator_next_to_single_letters"] += 1
+            return "ok"
         self._set(h, name, to_dtype(M, op["dtype"]).astype(np.complex128))
         return "ok"
 
@@ -629,7 +648,7 @@ class Engine:
             elif how == "tensor":
                 o = world.handles[op["other"]]
                 if not (h.simple and o.simple and set(o.gens) == set(h.gens) and h.kind == o.kind == "plain"
-                        and o.how != "symmetric_square"):
+                        and o.how != "symmetric_square") or h.extra or o.extra:
                     return "skipped:mismatch"
                 real = a.tensor_product(o.real)
                 nh.n = h.n * o.n
@@ -637,7 +656,7 @@ class Engine:
                 for g in h.gens:
                     nh.gens[g] = np.kron(h.gens[g], o.gens[g])
             elif how == "symmetric_square":
-                if not (h.simple and h.kind == "plain"):
+                if not (h.simple and h.kind == "plain") or h.extra:
                     return "skipped:mismatch"
                 real = a.symmetric_square()
             elif how == "gln_adjoint":
@@ -675,7 +694,7 @@ class Engine:
                 nh.dtype = op["dtype"]
                 F = lambda M: M
             elif how in ("wrap_projective", "wrap_hyperbolic"):
-                if h.kind != "plain":
+                if h.kind != "plain" or h.extra:
                     return "skipped:wrapped"
                 cls = (self.projective.ProjectiveRepresentation if how == "wrap_projective"
                        else self.hyperbolic.HyperbolicRepresentation)
@@ -694,6 +713,8 @@ class Engine:
         if F is not None:
             for g, M in h.gens.items():
                 nh.gens[g] = F(M)
+            for g, M in h.extra.items():
+                nh.extra[g] = F(M)
         if how == "symmetric_square":
             # checked up to change of basis: the handle keeps its parent's model and is
             # compared by dimension and character
@@ -813,6 +834,10 @@ class Engine:
             w2 = [x for x in w if x in h.gens]
             if w2:
                 ws.append(w2)
+        for e in sorted(h.extra):
+            if all(ch in h.gens for ch in e):
+                ws.append(list(e))          # the *word* a.b, not the generator named "ab"
+                ws.append(list(e) + [sorted(h.gens)[0]])
         return ws
 
     def _check_handle(self, world, h, probe, accessor):
@@ -859,6 +884,18 @@ class Engine:
             vals[tuple(w)] = got
         if sym:
             return self._check_sym(h, ws, vals)
+        if h.extra and h.kind == "plain" and h.simple:
+            first = sorted(h.gens)[0]
+            for e in sorted(h.extra):
+                for word, want in ((e, h.extra[e]), (e + "*" + first, h.extra[e] @ h.gens[first])):
+                    try:
+                        got = np.array(h.real.element(word, parse_simple=False), dtype=np.complex128)
+                    except Exception as ex:
+                        return ("R.eval.raised", "element(%r, parse_simple=False) raised %r" % (word, ex))
+                    b = max(1.0, ninf(h.extra[e])) * max(1.0, ninf(h.gens[first]))
+                    if got.shape != want.shape or not np.all(np.abs(got - want) <= h.tol([0, 0], b, kappa)):
+                        return ("R.eval", "element(%r, parse_simple=False) is not the image of the generator "
+                                "named %r (times %r)" % (word, e, first))
         # homomorphism and free reduction through the real accessor
         for w in probe[:2]:
             w2 = [x for x in w if x in h.gens]
@@ -905,7 +942,7 @@ class Engine:
             cob = np.asarray(h.real.coboundary_matrix(), dtype=np.complex128)
         except Exception as e:
             return ("R.fox.raised", "coboundary_matrix() raised %r" % (e,))
-        k = len([g for g in h.gens if g == g.lower()])
+        k = len([g for g in h.gens if g == g.lower()]) + len([g for g in h.extra if g == g.lower()])
         if cob.shape != (n * k, n):
             return ("R.fox", "coboundary_matrix has shape %r, expected %r" % (cob.shape, (n * k, n)))
         for w in words:
